@@ -217,6 +217,20 @@ def harness(package, args, stdin=None, timeout_s=1800, env_extra=None):
     return p.stdout
 
 
+def harness_parallel(package, args, docs, nproc=8, timeout_s=1800):
+    """Splits NDJSON input lines over nproc harness processes (cases are independent); returns concatenated stdout."""
+    import concurrent.futures
+    cargo_build(package)
+    if len(docs) < 200 or nproc <= 1:
+        return harness(package, args, stdin="\n".join(docs) + "\n", timeout_s=timeout_s)
+    chunks = [docs[i::nproc] for i in range(nproc)]
+    with concurrent.futures.ThreadPoolExecutor(max_workers=nproc) as ex:
+        futs = [ex.submit(harness, package, args, "\n".join(c) + "\n", timeout_s,
+                          {"VERIF_SCRATCH": os.path.join(OUT, "scratch", "p%d" % i)})
+                for i, c in enumerate(chunks) if c]
+        return "".join(f.result() for f in futs)
+
+
 def ndjson(text):
     out = []
     for line in text.splitlines():
@@ -339,3 +353,48 @@ class Rng:
 
     def sample(self, xs, k):
         return self.shuffle(xs)[:k]
+
+
+def validate_trace(pid, module, cfg, trace_path, nlines, timeout_s=900, xmx="4g"):
+    """Runs a Trace*.tla spec over a recorded NDJSON log.  Returns (tlc_result, prop_fail_lines, mech_fail_lines).
+    The trace specs print PROPFAIL / MECHFAIL tuples (payload has .line) instead of blocking, and UNMATCHED when a
+    line could not be consumed; acceptance = every line consumed (diameter = lines + 1)."""
+    if nlines == 0:
+        raise ToolError("empty trace for %s: nothing recorded" % module)
+    tr = tlc(pid, module, cfg, workers=1, timeout_s=timeout_s, trace_file=trace_path, deque=True, coverage=False,
+             xmx=xmx)
+    prop, mech = [], []
+    for kind, payload in tr.prints:
+        if kind == "PROPFAIL":
+            prop.append(payload)
+        elif kind == "MECHFAIL":
+            mech.append(payload)
+        elif kind == "UNMATCHED":
+            raise ToolError("%s: trace not consumed at line %s" % (module, payload.get("line")))
+    if tr.error and not tr.prints:
+        raise ToolError("%s: %s" % (module, tr.error))
+    if tr.distinct != nlines + 1:
+        raise ToolError("%s consumed %d of %d trace lines\n%s" % (module, tr.distinct - 1, nlines, tr.log[-1500:]))
+    return tr, prop, mech
+
+
+def binding_selftest(pid, module, cfg, trace_path, corrupt, nlines_max=400):
+    """Demonstrates that the trace spec is bound to the recorded fields: a copy of the first lines of the trace with
+    one field corrupted by `corrupt(list_of_records) -> bool` must produce a PROPFAIL/MECHFAIL/UNMATCHED."""
+    recs = []
+    with open(trace_path) as f:
+        for line in f:
+            recs.append(json.loads(line))
+            if len(recs) >= nlines_max:
+                break
+    if not corrupt(recs):
+        return None
+    p = trace_path + ".corrupt"
+    with open(p, "w") as f:
+        for r in recs:
+            f.write(json.dumps(r) + "\n")
+    tr = tlc(pid, module, cfg, workers=1, timeout_s=300, trace_file=p, deque=True, coverage=False, xmx="2g")
+    rejected = any(k in ("PROPFAIL", "MECHFAIL", "UNMATCHED") for k, _ in tr.prints) or tr.distinct != len(recs) + 1
+    if not rejected:
+        raise ToolError("binding self-test failed: %s accepted a corrupted trace" % module)
+    return True
